@@ -131,15 +131,23 @@ def parse_tlc_stats(out):
 
 
 def tlc_verify(name, constants, invariants, workdir, workers=8, timeout=1500,
-               module="MC_tree.tla", view="ViewNoH", constraint="Bounded", spec="Spec"):
-    """Design-level check: exhaustive within the constants. Returns stats dict."""
+               module="MC_tree.tla", view="ViewNoH", constraint="Bounded", spec="Spec", simulate=None):
+    """Design-level check: exhaustive within the constants (or, with simulate=(num, depth),
+    invariants checked along random walks). Returns stats dict."""
     cfg = os.path.join(workdir, f"{name}-{module.split('.')[0]}-verify.cfg")
     write_cfg(cfg, constants, invariants=invariants, view=view, constraint=constraint, spec=spec)
     t0 = time.time()
     cex = os.path.join(workdir, f"{name}-{module.split('.')[0]}-cex.json")
-    rc, out = run_tlc(module, cfg, workdir, workers=workers, timeout=timeout,
-                      extra=["-dumpTrace", "json", cex])
+    extra = ["-dumpTrace", "json", cex]
+    if simulate:
+        extra += ["-simulate", f"num={simulate[0]}", "-depth", str(simulate[1])]
+    rc, out = run_tlc(module, cfg, workdir, workers=workers, timeout=timeout, extra=extra)
     st = parse_tlc_stats(out)
+    if simulate:
+        m = re.search(r"(\d+) states checked", out.replace(",", ""))
+        st["generated"] = st["distinct"] = int(m.group(1)) if m else 0
+        st["ok"] = rc == 0 and "violated" not in st
+        st["mode"] = f"simulation num={simulate[0]} depth={simulate[1]}"
     st["wall_s"] = round(time.time() - t0, 1)
     st["timeout"] = rc == 124
     st["constants"] = {k: (sorted(v, key=str) if isinstance(v, (set, frozenset)) else v)
